@@ -27,6 +27,7 @@ fn dispatch(req: &Value) -> Value {
         "field_name" => fmtops::field_name(req),
         "cfmt_split" => fmtops::cfmt_split(req),
         "cfmt_cell" => fmtops::cfmt_cell(req),
+        "fmt_cell" => fmtops::fmt_cell(req),
         "args_conv" => astops::args_conv(req),
         "lex" => syn::lex(req),
         "locate_tree" => syn::locate_tree(req),
